@@ -411,5 +411,12 @@ func (g *Generator) generateNestedUnmarshal(
 	gf.P(`return fmt.Errorf("failed to unmarshal variant %s: %w", "`, fieldGoName, `", variantErr)`)
 	gf.P("}")
 	gf.P("x.", info.Oneof.GoName, " = &", wrapperType, "{", fieldGoName, ": variant}")
+	// The final protojson decode reads this key again: hand it the proto3 JSON form,
+	// not the variant's own (annotated) form
+	gf.P("variantBack, backErr := protojson.Marshal(variant)")
+	gf.P("if backErr != nil {")
+	gf.P(`return fmt.Errorf("failed to re-encode variant %s: %w", "`, fieldGoName, `", backErr)`)
+	gf.P("}")
+	gf.P(`raw["`, fieldJSONName, `"] = variantBack`)
 	gf.P("}")
 }
